@@ -4,6 +4,7 @@ import PdbVerif.Model.Parse
 import PdbVerif.Model.Contacts
 import PdbVerif.Model.RmsdFast
 import PdbVerif.Model.RmsdSql
+import PdbVerif.Gen.Rmsd
 
 namespace Driver.ModelE
 open Lean Driver Driver.ECommon Py Model Model.Rmsd
@@ -150,8 +151,68 @@ def metaModel (kind : String) (j : Json) (bd br vd vr : List Str) (cutoff : Rat)
   | "permute" => pure (mk relPermOrError none none)
   | _ => throw s!"unknown meta kind {kind}"
 
+/-! ### the GENERATED raw-line readers and zone reader (Gen/Rmsd.lean, translated from StructureSimilarity.py on every run) -/
+
+/-- `[[chain, [n, ...]], ...]` → a `resData` dictionary in insertion order -/
+def jZoneDict (j : Json) (k : String) : Except String (Py.Dict Str (List Int)) := do
+  let a ← jArr j k
+  a.toList.mapM (fun e => match e with
+    | .arr #[c, .arr ns] => do
+      let c ← asStr c
+      let ns ← ns.toList.mapM asInt
+      pure (c.toList, ns)
+    | _ => throw "zone entry: [chain, [numbers]] expected")
+
+def jKeyList (j : Json) (k : String) : Except String (List (Str × Int × Str)) := do
+  let a ← jArr j k
+  a.toList.mapM (fun e => match e with
+    | .arr #[c, n, nm] => do pure ((← asStr c).toList, ← asInt n, (← asStr nm).toList)
+    | _ => throw "key: [chain, number, name] expected")
+
+def p3sJ (l : List (Vec3 Rat)) : Json := .arr (l.map (fun p => Json.arr (p3J p).toArray)).toArray
+def keysJ (l : List (Str × Int × Str)) : Json := .arr (l.map keyJ).toArray
+def zoneDictJ (z : Py.Dict Str (List Int)) : Json :=
+  .arr (z.map (fun e => Json.arr #[strJ e.1, .arr (e.2.map intJ).toArray])).toArray
+
+/-- op `gen_readers`: `GenR.get_data_zone_backbone`, `GenR.get_xyz_zone_backbone` (both return forms), `GenR._get_xyz` on the
+    lines, zone, name list and index of the case; `GenR.read_zone` on the zone file of the case -/
+def genReaders (j : Json) : Except String Json := do
+  let lines ← jLines j "lines"
+  let zone ← jZoneDict j "zone"
+  let names ← jLines j "names"
+  let index ← jKeyList j "index"
+  let rd : Str → Except Err (List Str) := fun _ => .ok lines
+  let sumJ {α β : Type} (f : α → Json) (g : β → Json) (x : Except Err (Sum α β)) : Json :=
+    exceptJ (fun s => match s with | .inl a => f a | .inr b => g b) x
+  let dataT := GenR.get_data_zone_backbone rd [] zone true names
+  let dataF := GenR.get_data_zone_backbone rd [] zone false names
+  let xyzT := GenR.get_xyz_zone_backbone rd [] zone true names
+  let xyzF := GenR.get_xyz_zone_backbone rd [] zone false names
+  let gx := GenR._get_xyz rd [] index
+  let zfile : Option (List Str) := match jLines j "zone_file" with | .ok l => some l | .error _ => none
+  let rz := GenR.read_zone (fun _ => zfile.isSome) (fun _ => .ok (zfile.getD [])) []
+  pure (Json.mkObj [
+    ("data_true", sumJ (fun (p : _ × _) => Json.arr #[keysJ p.1, keysJ p.2]) keysJ dataT),
+    ("data_false", sumJ (fun (p : _ × _) => Json.arr #[keysJ p.1, keysJ p.2]) keysJ dataF),
+    ("xyz_true", sumJ (fun (p : _ × _) => Json.arr #[p3sJ p.1, p3sJ p.2]) p3sJ xyzT),
+    ("xyz_false", sumJ (fun (p : _ × _) => Json.arr #[p3sJ p.1, p3sJ p.2]) p3sJ xyzF),
+    ("get_xyz", exceptJ p3sJ gx),
+    ("read_zone", exceptJ zoneDictJ rz)])
+
 def op (name : String) (j : Json) : Except String (Option Json) := do
   match name with
+  | "gen_readers" => pure (some (← genReaders j))
+  | "gen_zones" =>
+    -- the GENERATED zone computations (Gen/Rmsd.lean) on the parsed reference, `save_file=True`: the dictionary and the file written
+    let rl ← jLines j "ref"
+    let cutoff ← jRat j "cutoff"
+    let p2s : Str → Except Err (List Atom) := fun _ => tableOf rl
+    let outJ (x : Except Err (Py.Dict Str (List Int) × List GenR.Rt2.Write)) : Json :=
+      exceptJ (fun zw => Json.mkObj [("zone", zoneDictJ zw.1),
+        ("files", .arr (zw.2.map (fun f => Json.arr #[strJ f.1, .arr (f.2.map strJ).toArray])).toArray)]) x
+    pure (some (Json.mkObj [
+      ("lzone", outJ (GenR.compute_lzone p2s "ref".toList true (some "LZ".toList))),
+      ("izone", outJ (GenR.compute_izone p2s (fun t c c0 c1 => contactSets t (izoneArgs c c0 c1)) "ref".toList cutoff true (some "IZ".toList)))]))
   | "rmsd" =>
     let dl ← jLines j "dec"
     let rl ← jLines j "ref"
